@@ -16,12 +16,14 @@
                *defining* block
       q_annfn  the declaration pass visits the parameter annotations inside the function's scope
       q_annmiss the annotation pass does NOT record the names read by parameter annotations
-   (all three false = what CPython does; that is also what fixes/C08-visit-arg-annotation-pass.diff gives) *)
+      q_nlhide  an isolated scope exports read - bound (a name the nested function declares nonlocal counts as
+               bound there and is not passed on); false: read - (bound - nonlocals)
+   (all false = what CPython does; that is also what fixes/C08-visit-arg-annotation-pass.diff gives) *)
 From Coq Require Import List Arith Bool.
 Import ListNotations.
 Require Import MV.Scope.Ast.
 
-Record quirks : Set := mkq { q_leak : bool; q_annfn : bool; q_annmiss : bool }.
+Record quirks : Set := mkq { q_leak : bool; q_annfn : bool; q_annmiss : bool; q_nlhide : bool }.
 
 Record scope : Set := mksc {
   rd : list qn; md : list qn; bd : list qn; dl : list qn;
@@ -40,8 +42,8 @@ Definition fin_noniso (c : scope) : scope :=
 Definition fin_handler (nm : option name) (c : scope) : scope :=
   let i := match nm with Some n => [QS n] | None => [] end in
   mksc (minus (rd c) i) (minus (md c) i) (minus (bd c) i) [] (gl c) (nl c) [] [].
-Definition fin_iso (c : scope) : scope :=
-  mksc (minus (rd c) (bd c)) [] [] [] [] [] [] [].
+Definition fin_iso (hide : bool) (c : scope) : scope :=
+  mksc (minus (rd c) (if hide then bd c else minus (bd c) (nl c))) [] [] [] [] [] [] [].
 
 Record flags : Set := mkfl {
   fl_aug : bool;        (* _in_aug_assign *)
@@ -149,7 +151,7 @@ Fixpoint visit (f : flags) (t : node) {struct t} : scope :=
             union (fin_noniso (union (visit f' decos)
                               (union (visit (with_ann f') rets)
                               (union (visit_args_annot f' args) (bind_name n)))))
-                  (fin_iso (union (fin_noniso (visit_args_decl f' args)) (fin_noniso (visit f' body))))
+                  (fin_iso (q_nlhide Q) (union (fin_noniso (visit_args_decl f' args)) (fin_noniso (visit f' body))))
         | _ => empty
         end
     | KLambda =>
@@ -157,7 +159,7 @@ Fixpoint visit (f : flags) (t : node) {struct t} : scope :=
         | NCons args (NCons body NNil) =>
             let f' := enter f false false in
             union (fin_noniso (visit_args_annot f' args))
-                  (fin_iso (union (fin_noniso (visit_args_decl f' args)) (fin_noniso (visit f' body))))
+                  (fin_iso (q_nlhide Q) (union (fin_noniso (visit_args_decl f' args)) (fin_noniso (visit f' body))))
         | _ => empty
         end
     | KClass n =>
@@ -165,7 +167,7 @@ Fixpoint visit (f : flags) (t : node) {struct t} : scope :=
         | NCons decos (NCons bases (NCons body NNil)) =>
             let f' := enter f true false in
             union (fin_noniso (union (visit f' decos) (union (bind_name n) (visit f' bases))))
-                  (fin_iso (union (visit f' decos) (union (visit f' bases) (visit f' body))))
+                  (fin_iso (q_nlhide Q) (union (visit f' decos) (union (visit f' bases) (visit f' body))))
         | _ => empty
         end
     | KArgs => empty    (* only reached through visit_args_* *)
